@@ -168,7 +168,13 @@ def run_calls(name: str, bounds, prec, rem, bs: int, seed: int, ncalls: int, rng
             keep_p, keep_l = pts.copy(), losses.copy()
             spy.clear()
             try:
-                out = s.sample(space, pts, losses)
+                from .plugins import Hang, _watchdog
+
+                try:
+                    with _watchdog(300):
+                        out = s.sample(space, pts, losses)
+                except Hang:
+                    raise RuntimeError("sample() did not return within 300 s") from None
             except Exception as e:  # noqa: BLE001
                 same = before == sha(pts, losses) and np.array_equal(keep_p, pts) and np.array_equal(keep_l, losses, equal_nan=True)
                 events.append({"e": "sample-raised", "cls": name, "what": f"{type(e).__name__}: {e}"[:160], "call": c, "kw": _kw(kw),
